@@ -302,6 +302,62 @@ func missingPoints(up, sv result) []int64 {
 	return miss
 }
 
+// straddlesSliceBoundary: at evaluation time t the window of some selector of the expression (range window, or the
+// look-back window of an instant-vector selector; shifted by the offset) contains the boundary between two ingestion
+// slices, i.e. its samples reach the cursors in (at least) two records
+func straddlesSliceBoundary(ds *dataset, expr string, t int64) bool {
+	if ds.Slices < 2 {
+		return false
+	}
+	e, err := parser.ParseExpr(expr)
+	if err != nil {
+		return false
+	}
+	found := false
+	check := func(width, off int64) {
+		hi := t - off
+		lo := hi - width
+		for k := 1; k < ds.Slices; k++ {
+			b := baseMs + ds.SpanMs*int64(k)/int64(ds.Slices)
+			if lo <= b && b <= hi {
+				found = true
+			}
+		}
+	}
+	parser.Inspect(e, func(n parser.Node, path []parser.Node) error {
+		switch x := n.(type) {
+		case *parser.MatrixSelector:
+			if vs, ok := x.VectorSelector.(*parser.VectorSelector); ok {
+				check(x.Range.Milliseconds(), vs.OriginalOffset.Milliseconds())
+			}
+		case *parser.VectorSelector:
+			if len(path) > 0 {
+				if _, under := path[len(path)-1].(*parser.MatrixSelector); under {
+					return nil
+				}
+			}
+			check(lookbackMs, x.OriginalOffset.Milliseconds())
+		}
+		return nil
+	})
+	return found
+}
+
+// lostAtSliceBoundary: sv is up with points missing (nothing else differs) and every missing point belongs to a step
+// whose window straddles an ingestion-slice boundary
+func lostAtSliceBoundary(ds *dataset, expr string, up, sv result) bool {
+	miss := missingPoints(up, sv)
+	if len(miss) == 0 {
+		return false
+	}
+	for _, t := range miss {
+		if !straddlesSliceBoundary(ds, expr, t) {
+			return false
+		}
+	}
+	return true
+}
+
 // hasInfSample: some series of the data set carries a +Inf / -Inf sample value
 func hasInfSample(ds *dataset) bool {
 	for _, s := range ds.Series {
@@ -1009,6 +1065,15 @@ func explainWith(ds *dataset, e *exprCase, mode string, start, lastStep, step in
 	}
 	if mode == "range" && hasMatrixSelector(e.Expr) && cmpResults(up, sv) != "" && trailingLoss(up, sv) {
 		ex.Rules = addRule(ex.Rules, fStepGtRange)
+		return true, ex, nregex
+	}
+	if allowResets && mode == "range" && cmpResults(up, sv) != "" && lostAtSliceBoundary(ds, target, up, sv) {
+		// a step whose window is fed from two records (files / memtable) loses its point
+		if hasMatrixSelector(e.Expr) {
+			ex.Rules = addRule(ex.Rules, fStepGtRange)
+		} else {
+			ex.Rules = addRule(ex.Rules, fSelTrailing)
+		}
 		return true, ex, nregex
 	}
 	if allowResets && mode == "range" && !hasMatrixSelector(e.Expr) && cmpResults(up, sv) != "" && trailingLoss(up, sv) {
